@@ -12,144 +12,26 @@ BROAD = ('Exception', 'BaseException')
 SAFE_KINDS = {'Num', 'NameConstant'}
 
 
-def replacement_returns(fi, F):
-    """Returns of visit_BinOp whose value is not the (unchanged) node parameter."""
-    node_p = fi.positional[0]
-    out = []
-    for (ret, facts) in F.returns:
-        if isinstance(ret.value, ast.Name) and ret.value.id == node_p:
-            continue
-        out.append((ret, facts))
-    return out
-
-
 def run(model, rep):
-    rep.explanation = ('The folding transform has one site that replaces an expression. The check finds it (any return of visit_BinOp that does not return the node '
-                       'unchanged) and requires on every path to it: both operands literal Num/NameConstant nodes; operator neither Div nor Pow; the original and the '
-                       'candidate evaluated inside broad handlers that return the node unchanged; the NaN arm taken out; strictly shorter; candidate re-parsed and '
-                       'compared; equal_value_and_type true. equal_value_and_type is abstractly evaluated on exemplar pairs of every numeric type and must refuse every '
-                       'cross-type pair. Not decided: eval(fold(E)) == eval(E) for all E - that is delegated to the run-time comparison whose presence and strictness '
-                       'are what is decided here.')
-    for r, t in [('C07.GUARD', 'replacement site carries the eight guard facts'), ('C07.TYPE', 'equal_value_and_type refuses cross-type pairs (enumerated)'),
-                 ('C07.ERR', 'both evaluations inside try/except Exception returning the node unchanged'), ('C07.NEG', 'negative results rebuilt as UnaryOp(USub, positive constant)')]:
-        rep.rule(r, t)
-    rep.rule('C07.ENUM', 'the folding transform, abstractly run on every operand-type pair x operator and on nested forms, never changes type, value or error')
+    rep.explanation = ('The folding transform is run by the abstract interpreter on modules of literal arithmetic: every pair of operand kinds (int, bool, float, complex, '
+                       'large and boundary values) under every binary operator, in both statement orders within one module, plus nested forms. eval() inside the '
+                       'transform is answered by the checker for literal-only text (anything else reaching it is an error of its own). The folded module is then '
+                       'printed by the repository\'s printer (abstractly run as well), the text is parsed by this interpreter\'s parser and each statement is '
+                       'evaluated: the result must be identical in type, value (sign of zero, infinities) and exception to the original; an expression that '
+                       'raises, yields NaN, is an integer true division (its value depends on the interpreter major version) or would not get strictly shorter '
+                       'must be left alone. No shape of visit_BinOp is assumed (helpers, early returns and tables are all fine). equal_value_and_type is also '
+                       'evaluated on exemplar pairs of every numeric type and must refuse every cross-type pair. Decided for the enumerated operand kinds and '
+                       'nesting forms, not for all expressions.')
+    rep.rule('C07.ENUM', 'the folding transform, abstractly run on every operand-type pair x operator and on nested forms and printed back, never changes type, value or error, '
+                         'leaves raising / NaN / integer-division / not-shorter expressions alone')
+    rep.rule('C07.TYPE', 'equal_value_and_type refuses cross-type pairs (enumerated)')
     enum(model, rep)
-    fi = model.func(FOLD)
-    F = Facts(fi.node)
-    defs = local_defs(fi.node)
-    node_p = fi.positional[0]
-    reps = replacement_returns(fi, F)
-    if not reps:
-        raise AnalysisError('no replacement site found in FoldConstants.visit_BinOp')
-    se = 'safe_eval'
-    # identify evaluation calls and their variables
-    evals = [c for c in calls(fi.node) if isinstance(c.func, ast.Name) and model.resolve_name(MOD, c.func.id) == MOD + '.safe_eval']
-    eval_vars = {}
-    for c in evals:
-        par = model.parent(c)
-        if isinstance(par, ast.Assign) and isinstance(par.targets[0], ast.Name):
-            eval_vars[par.targets[0].id] = c
 
-    shape_ok = True
-    for (ret, facts) in reps:
-        where = fi.loc(ret)
-        key0 = 'C07.GUARD|' + src(ret.value)[:60]
-        if facts is None:
-            continue
-        # what is returned: add_child(new_node, ...) -> the replacement node variable
-        v = ret.value
-        newvar = None
-        if isinstance(v, ast.Call) and v.args and isinstance(v.args[0], ast.Name):
-            newvar = v.args[0].id
-        elif isinstance(v, ast.Name):
-            newvar = v.id
-        if newvar is None:
-            # the replacement is produced by a helper: the guard facts are not visible at this site; behaviour is decided by C07.ENUM
-            rep.note('C07.GUARD not applicable at %s: `return %s` builds the replacement through a helper (C07.ENUM decides the behaviour)' % (where, src(v)[:60]))
-            shape_ok = False
-            continue
-        # 1. operands
-        for side in ('left', 'right'):
-            ok = False
-            for (k, p) in facts:
-                if p and k.startswith('is_constant_node(%s.%s,' % (node_p, side)):
-                    t = ast.parse(k, mode='eval').body
-                    kinds = {x.attr for x in ast.walk(t.args[1]) if isinstance(x, ast.Attribute)}
-                    ok = bool(kinds) and kinds <= SAFE_KINDS
-            rep.check(ok, 'C07.GUARD', where, 'operand %s is a literal number/constant' % side, 'fact is_constant_node(node.%s, (Num, NameConstant))' % side,
-                      'replacement reachable with a %s operand that is not restricted to numeric / True/False/None literals (strings, names, calls could be evaluated); facts: %s' % (side, fact_texts(facts)[:8]),
-                      key=key0 + '|operand-' + side)
-        # 2. operators
-        for opn in ('Div', 'Pow'):
-            ok = ('isinstance(%s.op, ast.%s)' % (node_p, opn), False) in facts
-            rep.check(ok, 'C07.GUARD', where, 'operator is not %s' % opn, 'fact not isinstance(node.op, ast.%s)' % opn,
-                      '%s can be folded: %s' % (opn, 'true division differs between interpreter major versions' if opn == 'Div' else 'unbounded evaluation cost / huge results'),
-                      key=key0 + '|op-' + opn)
-        # 3/5. evaluations dominate and are the sources of the compared values
-        ev_ok = sum(1 for c in evals if ('<did:%s>' % src(c.func), True) in facts)
-        rep.check(len(evals) >= 2 and ev_ok >= 1, 'C07.GUARD', where, 'original and candidate are both evaluated', '%d safe_eval calls dominate the site' % len(evals),
-                  'the original and the candidate are not both evaluated before the replacement', key=key0 + '|evals')
-        # 4. NaN
-        ok = any((not p) and 'isnan' in k for (k, p) in facts if not k.startswith('<'))
-        rep.check(ok, 'C07.GUARD', where, 'NaN results are not folded', 'fact not isnan(original value)', 'a NaN result can be folded (there is no NaN literal)', key=key0 + '|nan')
-        # 6. strictly shorter
-        texts = [t.id for t in ast.walk(fi.node) if isinstance(t, ast.Name)]
-        shorter = None
-        for (k, p) in facts:
-            if k.startswith('<'):
-                continue
-            t = ast.parse(k, mode='eval').body
-            if isinstance(t, ast.Compare) and len(t.ops) == 1 and all(isinstance(x, ast.Call) and src(x.func) == 'len' for x in (t.left, t.comparators[0])):
-                a, b = src(t.left.args[0]), src(t.comparators[0].args[0])
-                r = implies_le(facts, 'len(%s)' % a, 'len(%s)' % b) or None
-                r2 = implies_le(facts, 'len(%s)' % b, 'len(%s)' % a) or None
-                # which one is the candidate text? the one printed from the replacement node
-                for small, big, rel in ((a, b, r), (b, a, r2)):
-                    if rel is None:
-                        continue
-                    d = single_def(defs, small)
-                    if isinstance(d, ast.Call) and d.args and src(d.args[0]) == newvar:
-                        shorter = rel
-        rep.check(shorter == 'lt', 'C07.GUARD', where, 'candidate text strictly shorter than the original', 'fact len(candidate) < len(original)',
-                  'replacement is not restricted to strictly shorter text (%s)' % ('only <=' if shorter == 'le' else 'no length fact'), key=key0 + '|shorter')
-        # 7. re-parse + compare
-        cmp_ok = any(k.startswith('<did:') and 'compare_ast' in k for (k, p) in facts) and any(k.startswith('<did:') and k.endswith('parse>') for (k, p) in facts)
-        rep.check(cmp_ok, 'C07.GUARD', where, 'candidate re-parsed and compared with the replacement node', 'ast.parse and compare_ast dominate the site',
-                  'the candidate text is not re-parsed and compared before it is used', key=key0 + '|reparse')
-        # 8. strict equality of value and type between the two evaluation results
-        ok = False
-        for (k, p) in facts:
-            if p and k.startswith('equal_value_and_type('):
-                t = ast.parse(k, mode='eval').body
-                names = {src(a) for a in t.args}
-                ok = len(names) == 2 and names <= set(eval_vars)
-        rep.check(ok, 'C07.GUARD', where, 'equal_value_and_type(candidate value, original value)', 'fact present, arguments are the two evaluation results',
-                  'the strict value-and-type comparison of the two evaluation results does not guard the replacement', key=key0 + '|equal')
-    if shape_ok:
-        rep.floor('C07.GUARD', 9)
-
-    # ---------------- ERR
-    n = 0
-    for c in evals:
-        n += 1
-        facts = F.facts_at(c)
-        broad = facts is not None and any(('<try-catches:%s>' % b, True) in facts for b in BROAD)
-        # the handler of the enclosing try returns the node unchanged
-        t = c
-        while t is not None and not isinstance(t, ast.Try):
-            t = model.parent(t)
-        unchanged = False
-        if isinstance(t, ast.Try):
-            unchanged = all(len(h.body) >= 1 and isinstance(h.body[-1], ast.Return) and isinstance(h.body[-1].value, ast.Name) and h.body[-1].value.id == node_p for h in t.handlers)
-        rep.check(broad and unchanged, 'C07.ERR', fi.loc(c), src(model.parent(c))[:80], 'inside try/except Exception -> return node',
-                  'evaluation of literal arithmetic can raise (ZeroDivisionError, OverflowError, TypeError, ValueError, MemoryError) and is not caught by a handler that leaves the expression alone',
-                  key='C07.ERR|' + src(c))
-    if shape_ok:
-        rep.floor('C07.ERR', 2)
-
-    # ---------------- TYPE (abstract enumeration)
-    eq = model.func(MOD + '.equal_value_and_type')
+    # ---------------- TYPE (abstract enumeration of the comparison helper, when there is one)
+    eq = model.funcs.get(MOD + '.equal_value_and_type')
+    if eq is None:
+        rep.note('no equal_value_and_type helper in %s: the comparison is decided through C07.ENUM only' % MOD)
+        return
     ex = [0, 1, 2, True, False, 0.0, 1.0, 2.0, 1.5, 0j, 1j, (1 + 0j), 10 ** 20, float('inf')]
     cells = 0
     bad = []
@@ -171,43 +53,13 @@ def run(model, rep):
     if not bad:
         rep.ok('C07.TYPE', eq.loc(), 'equal_value_and_type over %d exemplar pairs' % cells, 'true exactly for pairs of identical type and value', cells=cells, key='C07.TYPE|enum')
 
-    # ---------------- NEG: construction of the replacement node
-    for (ret, facts) in reps:
-        v = ret.value
-        newvar = v.args[0].id if isinstance(v, ast.Call) and v.args and isinstance(v.args[0], ast.Name) else (v.id if isinstance(v, ast.Name) else None)
-        origvars = [k for k, c in eval_vars.items()]
-        for n_ in walk_own(fi.node):
-            if isinstance(n_, ast.Assign) and isinstance(n_.targets[0], ast.Name) and n_.targets[0].id == newvar:
-                d = n_.value
-                f2 = F.facts_at(n_)
-                t = src(d)
-                if f2 is None:
-                    continue
-                key = 'C07.NEG|' + t[:70]
-                if isinstance(d, ast.Call) and src(d.func).endswith('.UnaryOp'):
-                    operand = kwarg(d, 'operand', 1)
-                    op = kwarg(d, 'op', 0)
-                    inner = operand.args[0] if isinstance(operand, ast.Call) and operand.args else (kwarg(operand, 'n') or kwarg(operand, 'value')) if isinstance(operand, ast.Call) else None
-                    ok = src(op).endswith('USub()') and isinstance(inner, ast.UnaryOp) and isinstance(inner.op, ast.USub) and src(inner.operand) in origvars
-                    rep.check(ok, 'C07.NEG', fi.loc(n_), t[:80], 'negative value rebuilt as -(positive constant)', 'negative result is not rebuilt as USub of the negated value', key=key)
-                elif isinstance(d, ast.Call) and src(d.func).split('.')[-1] in ('Num', 'Constant', 'NameConstant'):
-                    val = d.args[0] if d.args else (kwarg(d, 'n') or kwarg(d, 'value'))
-                    is_bool_arm = any(p and k.startswith('isinstance(') and 'bool' in k for (k, p) in f2)
-                    neg_excluded = any((not p) and "startswith('-')" in k for (k, p) in f2) or is_bool_arm
-                    ok = src(val) in origvars and neg_excluded
-                    rep.check(ok, 'C07.NEG', fi.loc(n_), t[:80], 'constant built from the evaluated value, only on the non-negative / bool arm',
-                              'a constant node can be built from a negative value (it would print as a unary minus and not round-trip) or from something other than the evaluated value', key=key)
-                else:
-                    rep.violation('C07.NEG', fi.loc(n_), t[:80], 'replacement node built by an unexpected constructor', key=key)
-    if shape_ok:
-        rep.floor('C07.NEG', 3)
-
 
 # ---------------------------------------------------------------------- ENUM: the folding transform abstractly run on literal arithmetic
 OPERANDS = ['0', '1', '2', '3', '7', '10', 'True', 'False', '0.0', '1.0', '2.0', '0.5', '1e308', '1j', '100000']
 OPS = ['+', '-', '*', '%', '//', '<<', '>>', '|', '&', '^', '/', '**', '@']
 NESTED = ['(1+2)*(1.0+2)', '(2*3)-(2.0*3)', '1+2+3.0', '2**3+1', '-1+2', '(1<<2)+(1.0<<2)', '[1<<2, 1.0<<2]', '1+2 if 1.0+2 else True+2', '(0*1.0)+(0*1)', '1e308*10+1', '(1-2)*3', '(1-2)-(1.0-2)',
-          '10*10*10*10', '1000*1000+0.5', '(True+True)*(1+1)', '1j*1j+1', '(5%3)+(5.0%3)', '7//2+7.0//2', '(1|2)&3', '3-3.0', '0.5+0.5']
+          '10*10*10*10', '1000*1000+0.5', '(True+True)*(1+1)', '1j*1j+1', '(5%3)+(5.0%3)', '7//2+7.0//2', '(1|2)&3', '3-3.0', '0.5+0.5', '(1-4)**2', '(2-5)**2.0', '1<<14', '1<<13', '5*20', '(1-3).real', '(0-1)*0.0', '(1e308*10)-(1e308*10)', '(1e308*10)*0', '2-(3-5)',
+          '1--(1-2)', '(1+1)/(2+2)', '(1+1.0)/(2+2)', '7%(2-2)', '1<<(1-2)', "'a'*3", "'a'+'b'", "b'a'*2", "'%d'%1", "'a'*(1+2)", '(1+2)*"ab"']
 
 
 def obj_to_ast(o):
@@ -241,16 +93,20 @@ def outcome(expr_node):
 
 
 def literal_only(node):
-    return all(isinstance(n, (ast.Expression, ast.BinOp, ast.UnaryOp, ast.Constant, ast.operator, ast.unaryop, ast.List, ast.IfExp, ast.Tuple, ast.expr_context)) for n in ast.walk(node))
+    """The text handed to eval() consists of literals (numbers, strings, bytes, True/False/None/...) and operators only: no names, calls, attribute
+    access, subscripts, displays, comprehensions, lambdas or f-strings."""
+    return all(isinstance(n, (ast.Expression, ast.BinOp, ast.UnaryOp, ast.Constant, ast.operator, ast.unaryop, ast.expr_context)) for n in ast.walk(node))
 
 
-def enum(model, rep):
+def fold_run(model, source, evaluated=None):
+    """Abstractly run add_namespace + FoldConstants()(module) on `source`. -> (original CPython tree, resulting module descriptor | ('raise', what)).
+    eval() is answered here for literal-only text. Text that is not literal-only is never evaluated: it is recorded in `evaluated` (when given,
+    as (text, False)) and answered with NameError, or - without a recorder - is an analysis error."""
     import copy
-    from ..absint import ClassRef
+    from ..absint import ClassRef, _Raise
     from ..absnodes import set_parents
     from ..absprint import printer_hooks, to_obj
     FC = MOD + '.FoldConstants'
-    fi = model.func(FOLD)
 
     def safe_eval_hook(I, e, args, kw, env):
         text = args[0]
@@ -259,72 +115,126 @@ def enum(model, rep):
         try:
             t = ast.parse(text, mode='eval')
         except SyntaxError:
-            from ..absint import _Raise
             raise _Raise('SyntaxError')
-        if not literal_only(t):
-            raise AnalysisError('the folding transform evaluates %r, which is not literal-only arithmetic' % text[:60])
+        lit = literal_only(t)
+        if evaluated is not None:
+            evaluated.append((text, lit))
+        if not lit:
+            if evaluated is None:
+                raise AnalysisError('the folding transform evaluates %r, which is not literal-only arithmetic' % text[:60])
+            raise _Raise('NameError')
         try:
-            return eval(compile(t, 'literal', 'eval'), {'__builtins__': {}}, {})
+            return eval(compile(t, 'literal', 'eval'), {'__builtins__': {}}, {})   # literal numbers and operators only (checked above)
         except Exception as ex:
-            from ..absint import _Raise
             raise _Raise(type(ex).__name__)
 
-    def run_module(source):
-        tree = ast.parse(source)
-        mod = to_obj(copy.deepcopy(tree))
-        set_parents(mod)
-        hooks = printer_hooks()
-        hooks.pop('compare_ast', None)
-        hooks['safe_eval'] = safe_eval_hook
-        hooks['math.isnan'] = lambda I, e, args, kw, env: (args[0] != args[0]) if isinstance(args[0], float) else (TOP if args[0] is TOP else False)
-        I = Interp(model, MOD, hooks, max_depth=600)
-        I.MAX_PATHS = 16
+    tree = ast.parse(source)
+    mod = to_obj(copy.deepcopy(tree))
+    set_parents(mod)
+    hooks = printer_hooks()
+    hooks.pop('compare_ast', None)
+    hooks['safe_eval'] = safe_eval_hook
+    hooks['eval'] = lambda I, e, args, kw, env: safe_eval_hook(I, e, args, kw, env)
+    hooks['math.isnan'] = lambda I, e, args, kw, env: (args[0] != args[0]) if isinstance(args[0], float) else (TOP if args[0] is TOP else False)
+    I = Interp(model, MOD, hooks, max_depth=600)
+    I.MAX_PATHS = 16
 
-        def thunk():
-            I.call_function('python_minifier.rename.mapper.add_namespace', [mod])
-            t = I.construct(ClassRef('FoldConstants', FC), [], {})
-            return I.call_method(FC, '__call__', t, [mod])
-        res = I.explore(thunk)
-        if len(res) == 1 and res[0][0][0] == 'raise':
-            return tree, ('raise', res[0][0][1])
-        if len(res) != 1 or res[0][0][0] != 'return':
-            raise AnalysisError('UNDECIDED: FoldConstants on %r... -> %s %s' % (source[:40], [r[0] for r in res][:2], res[0][2][:3]))
-        out = res[0][0][1]
-        return tree, (out if out is not None else mod)
+    def thunk():
+        I.call_function('python_minifier.rename.mapper.add_namespace', [mod])
+        t = I.construct(ClassRef('FoldConstants', FC), [], {})
+        return I.call_method(FC, '__call__', t, [mod])
+    res = I.explore(thunk)
+    if len(res) == 1 and res[0][0][0] == 'raise':
+        return tree, ('raise', res[0][0][1])
+    if len(res) != 1 or res[0][0][0] != 'return':
+        raise AnalysisError('UNDECIDED: FoldConstants on %r... -> %s %s' % (source[:40], [r[0] for r in res][:2], res[0][2][:3]))
+    out = res[0][0][1]
+    return tree, (out if out is not None else mod)
 
+
+def printed_values(model, tree, n):
+    """Print a module of n `v = <expr>` statements with the repository's printer (abstractly run), parse the text, and return per statement
+    (value node, printed text of the value)."""
+    from ..absprint import print_module
+    kind, text = print_module(model, tree)
+    if kind != 'ok':
+        return kind, text
+    try:
+        t = ast.parse(text)
+    except SyntaxError as e:
+        return 'unparsable', '%s: %r' % (e, text[:80])
+    if len(t.body) != n or not all(isinstance(st, ast.Assign) for st in t.body):
+        return 'unparsable', 'printed module has %d statements, expected %d' % (len(t.body), n)
+    return 'ok', [(st.value, ast.get_source_segment(text, st.value) or '') for st in t.body]
+
+
+def int_division(node):
+    """A true division whose operands are both integer (or bool) literals: 1/2 is 0 on Python 2 and 0.5 on Python 3."""
+    return isinstance(node, ast.BinOp) and isinstance(node.op, ast.Div) and all(isinstance(x, ast.Constant) and isinstance(x.value, int) for x in (node.left, node.right))
+
+
+def enum(model, rep, rule='C07.ENUM', only_length=False):
+    """only_length: the C17 reading of the same enumeration (a fold is kept only where the printed text gets strictly shorter)."""
+    import copy
+    fi = model.func(FOLD)
     cells = 0
     bad = []
     sources = []
     quick = rep.tier != 'thorough'
     operands = [o for o in OPERANDS if o not in ('7', '10', '100000', '2.0', '3', '1e308')] if quick else OPERANDS
-    for op in OPS:
+    for op in (OPS if not only_length else ['<<', '*', '+']):
         lines = ['v%d = %s %s %s' % (i, a, op, b) for i, (a, b) in enumerate((a, b) for a in operands for b in operands)]
         sources.append(('all operand pairs for %s' % op, '\n'.join(lines) + '\n'))
         if not quick or op in ('+', '<<', '*'):
             sources.append(('all operand pairs for %s, reversed order' % op, '\n'.join(reversed(lines)) + '\n'))
     sources.append(('nested expressions', '\n'.join('w%d = %s' % (i, e) for i, e in enumerate(NESTED)) + '\n'))
     sources.append(('nested expressions, reversed order', '\n'.join('w%d = %s' % (i, e) for i, e in reversed(list(enumerate(NESTED)))) + '\n'))
+    n_changed = 0
     for (label, source) in sources:
-        tree, out = run_module(source)
+        tree, out = fold_run(model, source, evaluated=[])   # text that is not a closed literal is answered with NameError, as eval would (C12 judges it)
         if isinstance(out, tuple):
-            rep.violation('C07.ENUM', fi.loc(), label, 'the folding transform raises %s on literal arithmetic whose evaluation fails; such expressions must be left alone' % out[1], key='C07.ENUM|raises|' + label.split(',')[0])
+            rep.violation(rule, fi.loc(), label, 'the folding transform raises %s on literal arithmetic whose evaluation fails; such expressions must be left alone' % out[1], key=rule + '|raises|' + label.split(',')[0])
             bad.append(None)
             continue
         body = out.attrs['body']
         if len(body) != len(tree.body):
             raise AnalysisError('FoldConstants changed the number of statements')
-        for orig_stmt, new_stmt in zip(tree.body, body):
+        new_tree = ast.Module(body=[obj_to_ast(st) for st in body], type_ignores=[])
+        for st in new_tree.body:
+            for t_ in st.targets:
+                t_.ctx = ast.Store()
+        ast.fix_missing_locations(new_tree)
+        k_new, new_vals = printed_values(model, new_tree, len(body))
+        k_old, old_vals = printed_values(model, copy.deepcopy(tree), len(body))
+        if k_old != 'ok':
+            raise AnalysisError('the unfolded probe module cannot be printed: %s %s' % (k_old, old_vals))
+        if k_new != 'ok':
+            rep.violation(rule, fi.loc(), label, 'the folded module cannot be printed and parsed back: %s %s' % (k_new, str(new_vals)[:120]), key=rule + '|print|' + label.split(',')[0])
+            bad.append(None)
+            continue
+        n_bad0, n_changed0 = len(bad), n_changed
+        for orig_stmt, new_stmt, (pv, ptext), (_ov, otext) in zip(tree.body, new_tree.body, new_vals, old_vals):
             cells += 1
-            new_expr = obj_to_ast(new_stmt.attrs['value'])
-            if ast.dump(new_expr) == ast.dump(orig_stmt.value):
-                continue  # left alone
-            want = outcome(copy.deepcopy(orig_stmt.value))
-            got = outcome(new_expr)
             text = ast.unparse(orig_stmt.value)
-            if got != want:
-                bad.append((label, text, ast.unparse(new_expr), want, got))
-            elif ast.dump(new_expr) != ast.dump(orig_stmt.value) and len(ast.unparse(new_expr).replace(' ', '')) > len(text.replace(' ', '')):
-                bad.append((label, text, ast.unparse(new_expr), 'not longer', 'longer'))
+            if ast.dump(new_stmt.value) == ast.dump(orig_stmt.value):
+                continue  # left alone
+            n_changed += 1
+            want = outcome(copy.deepcopy(orig_stmt.value))
+            got = outcome(pv)
+            if only_length:
+                if len(ptext) >= len(otext):
+                    bad.append((label, text, ptext, 'prints as %r (%d characters)' % (otext, len(otext)), 'the folded form %r is not shorter' % ptext))
+            elif got != want:
+                bad.append((label, text, ptext, 'evaluates to %s' % (want,), 'the folded form, as printed, evaluates to %s' % (got,)))
+            elif any(int_division(x) for x in ast.walk(orig_stmt.value)) and not any(int_division(x) for x in ast.walk(pv)):
+                bad.append((label, text, ptext, 'contains an integer true division', 'it was folded, but its value differs between Python 2 and Python 3'))
+            elif len(ptext) >= len(otext):
+                bad.append((label, text, ptext, 'prints as %r (%d characters)' % (otext, len(otext)), 'the folded form %r is not shorter' % ptext))
+        if len(bad) == n_bad0:
+            rep.ok(rule, fi.loc(), '%s: %d expressions, %d folded' % (label, len(body), n_changed - n_changed0),
+                   'every folded form, printed and parsed back, evaluates to the identical type and value and is strictly shorter', cells=len(body), key=rule + '|' + label)
+    if cells and not n_changed and not bad:
+        raise AnalysisError('FoldConstants folded none of the %d probe expressions: the enumeration does not reach the transform' % cells)
     seen = set()
     for (label, text, new, want, got) in [b for b in bad if b is not None]:
         k = (text, new)
@@ -333,8 +243,5 @@ def enum(model, rep):
         seen.add(k)
         if len(seen) > 6:
             break
-        rep.violation('C07.ENUM', fi.loc(), '%s  ->  %s   (%s)' % (text, new, label), 'original evaluates to %s, the folded form to %s' % (want, got), key='C07.ENUM|%s|%s' % (text, new))
-    if not bad:
-        rep.ok('C07.ENUM', fi.loc(), 'FoldConstants on %d literal expressions (%d operand pairs x %d operators in one module, both orders; %d nested)' % (cells, len(operands) ** 2, len(OPS), len(NESTED)),
-               'every folded form evaluates to the identical type and value (or is left alone), none is longer', cells=cells, key='C07.ENUM|all')
-    rep.floor('C07.ENUM', 1)
+        rep.violation(rule, fi.loc(), '%s  ->  %s   (%s)' % (text, new, label), 'the original %s; %s' % (want, got), key=rule + '|%s|%s' % (text, new))
+    rep.floor(rule, 10 if not only_length else 4)
